@@ -412,6 +412,23 @@ let rec handle (pl : string) : string =
     if !bad <> "" then "t=" ^ !bad ^ ";class=e1c:" ^ !bad
     else Printf.sprintf "t=%s;h=%08x;sole=%d;spec=%s;class=e1c:rev%s" (Buffer.contents trace) !h !sole_ok
            (bool01 (!sole_ok = !sole)) (if rev2b then "2" else "3")
+  | ["esr"; u; hu; old; fr] ->
+    let f = bytes_of_hex fr in
+    let enc = esp_encode f in
+    let pkt = espnet_build_rle (nn u) enc in
+    let special = List.exists (fun x -> int_of_n x >= 253 && int_of_n x <= 254) f in
+    let exp = (match buf_of old with
+      | None -> if f = [] then None else expect_overlay N0 f None
+      | Some _ -> Some f) in
+    (match espnet_handle_rle pkt (nn hu) (buf_of old) with
+     | E2Handled b -> Printf.sprintf "enc=%s;handled=1;buf=%s;spec=%s;class=esr:%s" (hex_of_bytes enc) (buf_s b)
+                        (bool01 (b = exp)) (if special then "with-fd-fe" else "plain")
+     | E2Dropped -> Printf.sprintf "enc=%s;handled=0;buf=%s;spec=0;class=esr:dropped" (hex_of_bytes enc) (buf_s (buf_of old))
+     | E2Oob -> "enc=OOB" | E2Fuel -> "enc=FUEL")
+  | ["esd"; old; bs] ->
+    (match esp_decode (bytes_of_hex bs) (buf_of old) with
+     | Some b -> Printf.sprintf "dbuf=%s;class=esd" (buf_s b)
+     | None -> "dbuf=FUEL")
   | ["enc"; cap; fr] ->
     let f = bytes_of_hex fr in
     let cls = frame_class (List.map int_of_n f) in
